@@ -315,6 +315,28 @@ def run (cfg : Cfg) (trigs : List Trig) (sc : Script) : RunResult :=
           | some _ => []
         ⟨s0.1 ++ .initialize ts0 :: i.1 ++ r.1 ++ fin, r.2.1.rows, r.2.1.all, r.2.1.trigs, r.2.2⟩
 
+/-! ### `Actuator.run` as called by the user: the strategy's trigger objects outlive the run
+
+  `run` above starts from the trigger objects as given.  `Actuator.run` (actuator.py, `run` wrapping `_run`) first calls `reset()` on
+  every trigger of `strategy.triggers` and, when the run is over (normally or not), puts the list it found back, so the objects the
+  loop dropped as out of date are installed again; the objects keep whatever state the run left in them.  The generated flag says
+  whether the source still does both (tools/consts_core.py). -/
+
+/-- `strategy.triggers` after the run: the list as found, every object in the state the loop left it in (`live`: the objects still
+    installed at the end of the loop; a retired object is one of the stateless classes) -/
+def handBack (before live : List Trig) : List Trig :=
+  before.map fun t => (live.find? (fun t' => t'.id == t.id)).getD t
+
+def startTrigs (trigs : List Trig) : List Trig := if Gen.coreRunResetsTriggers then trigs.map Trig.reset else trigs
+
+/-- `Actuator.run` on a strategy whose trigger objects are `trigs` (in any state a previous run may have left them in) -/
+def actuatorRun (cfg : Cfg) (trigs : List Trig) (sc : Script) : RunResult := run cfg (startTrigs trigs) sc
+
+/-- the strategy's trigger objects after `Actuator.run` -/
+def trigsAfterRun (cfg : Cfg) (trigs : List Trig) (sc : Script) : List Trig :=
+  if Gen.coreRunResetsTriggers then handBack (startTrigs trigs) (actuatorRun cfg trigs sc).trigsLeft
+  else (actuatorRun cfg trigs sc).trigsLeft
+
 /-! ### the property as a predicate on a trace (evaluated by the harness on the implementation's trace, proved of `run`) -/
 
 /-- timestamp of an event -/
